@@ -11,6 +11,7 @@ import (
 	"time"
 
 	"github.com/carapace-sh/carapace"
+	"github.com/carapace-sh/carapace/internal/common"
 )
 
 func init() {
@@ -33,6 +34,12 @@ func toGen(r *Rng, i int, cfg int, tier string) []string {
 	flags := ""
 	if r.Chance(1, 4) {
 		flags += "B"
+	}
+	if r.Chance(1, 3) {
+		flags += "W" // a modifier between the slow callback and Timeout (the slow work sits one callback deeper)
+	}
+	if r.Chance(1, 5) {
+		flags += "N" // the callback returns at once, with another callback that is the slow one
 	}
 	d := []int{60, 90, 120}[r.Intn(3)]
 	d2 := "-"
@@ -72,7 +79,14 @@ func toRun(cf []string) []string {
 	d, d2 := atoi(steps[0]), steps[1]
 	var current atomic.Int64 // duration of the wrapped action for the invocation under way
 	release := make(chan struct{})
-	defer close(release)
+	released := false
+	unblock := func() {
+		if !released {
+			released = true
+			close(release)
+		}
+	}
+	defer unblock()
 	inner := carapace.ActionCallback(func(c carapace.Context) carapace.Action {
 		ta := current.Load()
 		if ta < 0 {
@@ -83,6 +97,13 @@ func toRun(cf []string) []string {
 		return carapace.ActionValuesDescribed("inner", "inner description").NoSpace('/').Usage("inner usage")
 	})
 	a := inner
+	if strings.Contains(flags, "N") {
+		slow := inner
+		a = carapace.ActionCallback(func(c carapace.Context) carapace.Action { return slow })
+	}
+	if strings.Contains(flags, "W") {
+		a = a.Tag("wrapped")
+	}
 	if d2 != "-" {
 		a = a.Timeout(time.Duration(atoi(d2))*time.Millisecond, carapace.ActionValues("alt2"))
 	}
@@ -95,7 +116,27 @@ func toRun(cf []string) []string {
 		current.Store(int64(atoi(steps[2])))
 		steps = steps[3:]
 		t0 := time.Now()
-		meta, vals, p := invokeSafe(a, carapace.Context{})
+		type res struct {
+			meta common.Meta
+			vals common.RawValues
+			p    string
+		}
+		ch := make(chan res, 1)
+		go func() {
+			m, v, p := invokeSafe(a, carapace.Context{})
+			ch <- res{m, v, p}
+		}()
+		var rr res
+		select {
+		case rr = <-ch:
+		case <-time.After(3 * time.Second):
+			// no answer at all: report it and let the wrapped action go so that the process can finish
+			out = append(out, "no-answer", strconv.FormatInt(time.Since(t0).Milliseconds(), 10))
+			unblock()
+			<-ch
+			return out
+		}
+		meta, vals, p := rr.meta, rr.vals, rr.p
 		el := time.Since(t0).Milliseconds()
 		if p != "" {
 			return []string{"panic", p}
